@@ -89,6 +89,11 @@ def _on_grid(info, tag=""):
                 continue
             n_on += 1
             entry = float(V[t][tuple(idx)]) if idx else float(V[t][()])
+            if entry == float("-inf") and t < mj["n_periods"] - 1:
+                # a state of a non-last period whose every choice has value -inf: the continuation interpolates among -inf
+                # entries (0 * -inf, -inf + inf), which the model leaves undefined (`interpExt` = none) - not compared
+                info["ninf_nonlast_skipped"] = info.get("ninf_nonlast_skipped", 0) + 1
+                continue
             if not close_floats([entry], [row["value"]]):
                 vs.append({"clause": "simulated value equals the value array entry at an on-grid state",
                            "detail": f"{tag}period {t} agent {i} state {row['states']} index {idx}: simulated {fr(row['value'])}, V[{t}]{idx} = {fr(entry)}"})
@@ -167,6 +172,8 @@ def run_case(case):
     out["evals"] = n_on + cells
     out["hist"]["on_grid_agent_periods"] = n_on
     out["hist"]["ninf_in_V"] = int(bool(info.get("has_ninf")))
+    if info.get("ninf_nonlast_skipped"):
+        out["hist"]["on_grid_skipped_ninf_in_non_last_period"] = info["ninf_nonlast_skipped"]
     out["hist"]["fully_discrete"] = int(not any(g["k"] != "disc" for _, g in mj["states"]))
     for v in vs[:3]:
         v["key"] = "C06:" + v["clause"]
